@@ -982,6 +982,71 @@ def identically_spelled_sub_selections_with_different_shapes(rng, doc, s):
 
 
 @operator("OverlappingFieldsCanBeMergedChecker")
+def fragment_compared_under_exclusive_parents_first_then_under_overlapping_ones(rng, doc, s):
+    """`... on Dog { owner { lab: g } } ... on Cat { owner { ...Y } } owner { ...Y }` with `fragment Y on T { lab: h }`:
+    the fields `{ lab: g }` meet the fragment twice, first below parents that exclude each other (Dog / Cat: nothing to
+    report), then below parents that do not (Dog / the interface): the second meeting is the conflict. The written
+    order of the three selections is what a memo of compared (fields, fragment) pairs would get wrong."""
+    cands = []
+    scope_of = {}
+    for sels, scope, owner in walk_selection_lists(doc, s):
+      st = s.types.get(scope)
+      if st is None or st.kind not in ("interface", "union", "object"):
+          continue
+      for iface in s.types.values():
+        if iface.kind != "interface" or not (set(s.possible_types(iface.name)) & set(s.possible_types(scope))):
+            continue
+        objs = [s.types[n] for n in s.possible_types(iface.name)]
+        if len(objs) < 2:
+            continue
+        for w in iface.fields:
+            target = s.types.get(S.unwrap(w.type))
+            if target is None or target.kind not in ("object", "interface") or getattr(w, "homonym", False):
+                continue
+            leafs = [g for g in target.fields if not [a for a in g.args if a.type[0] == "nonnull" and not a.has_default]]
+            # same shape, other field - or the same field with other argument values
+            pairs = [(g, h) for g in leafs for h in leafs if g is not h and g.type == h.type]
+            pairs += [(g, g) for g in target.fields if g.args]
+            if pairs and all(o.field(w.name) is not None and o.field(w.name).type == w.type for o in objs):
+                cands.append((sels, iface, objs, w, target, pairs))
+                scope_of[id(sels)] = scope
+    if not cands:
+        return None
+    sels, iface, objs, w, target, pairs = rng.choice(cands)
+    g, h = rng.choice(pairs)
+    o1, o2 = rng.sample(objs, 2)
+    args = _required_args(rng, s, w)
+    name = "MetTwice%d" % len(doc.fragments)
+    ga, ha = _required_args(rng, s, g), _required_args(rng, s, h)
+    if g is h:
+        a0 = rng.choice(g.args)
+        for _ in range(20):
+            v1, v2 = _sg(rng, s).input_value_for(a0.type, allow_null=False), _sg(rng, s).input_value_for(a0.type, allow_null=False)
+            if opgen.value_text(v1) != opgen.value_text(v2):
+                break
+        else:
+            return None
+        ga[a0.name], ha[a0.name] = v1, v2
+
+    def inner(x):
+        return None if _is_leaf(s, x.type) else [opgen.OField("__typename", S.unwrap(x.type))]
+
+    doc.fragments[name] = opgen.OFragment(name, target.name, [opgen.OField(h.name, target.name, "lab", ha, [], inner(h))])
+
+    def via(parent, sub):
+        return opgen.OField(w.name, parent, "met", copy.deepcopy(args), [], sub)
+
+    direct = [opgen.OField(g.name, target.name, "lab", ga, [], inner(g))]
+    three = [opgen.OInline(o1.name, [via(o1.name, direct)]),
+             opgen.OInline(o2.name, [via(o2.name, [opgen.OSpread(name)])]),
+             via(iface.name, [opgen.OSpread(name)])]
+    if scope_of[id(sels)] != iface.name:
+        three = [opgen.OInline(iface.name, three)]
+    sels.extend(three)
+    return True
+
+
+@operator("OverlappingFieldsCanBeMergedChecker")
 def conflict_between_object_and_interface_parents(rng, doc, s):
     """`... on Dog { k: nickname } ... on Pet { k: name }`: an object type and an interface it implements
     do not exclude each other, so equal return types do not make the two fields mergeable."""
